@@ -195,6 +195,7 @@ let run (cmd : sexp) : sexp =
   | L [A "withextra"; pv; pfv; a; name] -> stree (ExtrasProofs.m_with_extra (num pv) (num pfv) (tree a) (str name))
   | L [A "simppv"; pfv; lo; hi; a] -> stree (Concrete.m_simplify_pv (num pfv) (optcut lo, optcut hi) (tree a))
   | L [A "cplxpv"; pfv; lo; hi; a] -> stree (Concrete.m_complexify_pv (num pfv) (optcut lo, optcut hi) (tree a))
+  | L [A "cmp"; a; b] -> scmp (CmpConcrete.m_cmp (tree a) (tree b))
   | L [A "valcmp"; a; b] -> scmp (Concrete.m_val_cmp (value a) (value b))
   | L [A "varcmp"; a; b] -> scmp (Concrete.m_var_cmp (var_ a) (var_ b))
   | L [A "substring"; a; b] -> bool_ (Concrete.substring (str a) (str b))
